@@ -286,18 +286,25 @@ def build_pile(combo, focus):
     return pile, probes
 
 
-def check_pile(ctx: Ctx, combo, focus, maxcol, maxrow):
+def check_pile(ctx: Ctx, combo, focus, maxcol, maxrow, in_focus=False):
+    """in_focus: the Pile is measured and rendered with focus=True and its focus item, a packed one, takes one more row while in focus"""
     size = (maxcol, maxrow)
     case = {"part": "pile", "combo": combo, "focus": focus, "size": size}
     kinds = "+".join(sorted({o[0] for o in combo}))
+    if in_focus:
+        case["in_focus"] = True
+        kinds += "/in-focus"
 
     def V(clause, detail, site=""):
         ctx.violation(clause, f"C19/pile/{clause}/{kinds}{('/' + site) if site else ''}", case, detail)
 
     urwid.CanvasCache.clear()
     pile, probes = build_pile(combo, focus)
+    if in_focus:
+        probes[focus].focus_extra = 1
+        combo = tuple((k, n + 1) if i == focus else (k, n) for i, (k, n) in enumerate(combo))
     ctx.count("evaluations")
-    ok, rs = guarded(ctx, V, "get_item_rows", lambda: list(pile.get_item_rows(size, False)))
+    ok, rs = guarded(ctx, V, "get_item_rows", lambda: list(pile.get_item_rows(size, in_focus)))
     if not ok:
         return
     ctx.obs(combo, focus, size, rs)
@@ -328,7 +335,7 @@ def check_pile(ctx: Ctx, combo, focus, maxcol, maxrow):
     if urwid.BOX not in pile.sizing():
         V("no-raise", f"Pile with a weighted box item does not report box sizing: {pile.sizing()}")
         return
-    ok, canv = guarded(ctx, V, "render", lambda: pile.render(size, False))
+    ok, canv = guarded(ctx, V, "render", lambda: pile.render(size, in_focus))
     if not ok:
         return
     for i, p in enumerate(probes):
@@ -366,6 +373,8 @@ def pile_task(task, ctx: Ctx):
         for focus in range(len(combo)):
             for maxrow in maxrows:
                 check_pile(ctx, combo, focus, 3, maxrow)
+                if combo[focus][0] == "pack":
+                    check_pile(ctx, combo, focus, 3, maxrow, in_focus=True)
 
 
 # ----------------------------------------------------------------------
@@ -1045,7 +1054,7 @@ def replay(case, ctx):
         check_columns(ctx, combo, case["div"], case["minw"], case["focus"], size[0], size[1] if len(size) > 1 else None,
                       persistent=pc if len(size) == 1 else None)
     elif part == "pile":
-        check_pile(ctx, tuple(tuple(o) for o in case["combo"]), case["focus"], case["size"][0], case["size"][1])
+        check_pile(ctx, tuple(tuple(o) for o in case["combo"]), case["focus"], case["size"][0], case["size"][1], in_focus=bool(case.get("in_focus")))
     elif part == "padding":
         size = case["size"]
         check_padding(ctx, case["width"][0], case["width"][1], tuple(case["align"]), case["min_width"], case["left"], case["right"],
